@@ -16,7 +16,8 @@ class CHECK(Check):
             "every byte string of length <=3 over {ident byte, NUL, newline, 0xFF-free garbage} plus random strings with "
             "truncated records, for record layouts of 1-3 types and peek windows 1..identifier width; (c) block files, text "
             "and binary, (d) section files. Observed: completion within the budget and the number of elements created. "
-            "non-trivial = non-empty content; distinct = hash")
+            "non-trivial = non-empty content; distinct = hash"
+            " Later additions: a catch-all register (empty identifier, zero-width window) in text files, class hierarchies, path reads.")
     exhaustive = True
 
     def entry_of(self, case):
